@@ -68,3 +68,24 @@ __CPROVER_requires(__CPROVER_is_fresh(self, sizeof(*self)) && __CPROVER_is_fresh
 __CPROVER_assigns(g_ser_mask)
 __CPROVER_ensures(g_ser_mask == (F_base | F_m_states | F_m_history | F_m_event_processing | F_m_is_included | F_substates))   /*@ob C16.saving-and-loading-cover-the-same-complete-member-set */
 ;
+
+/* ---------------- C16: history policies' serialize(ar, version) (back/history_policies.hpp; -DPOLICY=0 No, 1 Always, 2 Shallow) --------
+   what must round-trip is the history MEMORY (Always: m_initialStates doubles as the memory; Shallow: m_currentStates);
+   the initial states of No / Shallow are re-established by the constructor of the loading machine, archiving them is optional */
+enum { H_m_initialStates = 1, H_m_currentStates = 2 };
+extern int g_hser_mask;
+void har_amp(archive_t* ar, int field)
+__CPROVER_requires((g_hser_mask & field) == 0)                                                 /*@ob C16.each-member-serialized-at-most-once */
+__CPROVER_assigns(g_hser_mask)
+__CPROVER_ensures(g_hser_mask == (__CPROVER_old(g_hser_mask) | field))
+;
+#define HAR_AMP(ar, f) har_amp(ar, H_##f)
+#ifndef POLICY
+#define POLICY 0
+#endif
+void history_serialize(archive_t* ar, unsigned int version)
+__CPROVER_requires(__CPROVER_is_fresh(ar, sizeof(*ar)) && g_hser_mask == 0)
+__CPROVER_assigns(g_hser_mask)
+__CPROVER_ensures(POLICY == 1 ==> (g_hser_mask & H_m_initialStates) != 0)                      /*@ob C16.always-history-memory-is-archived */
+__CPROVER_ensures(POLICY == 2 ==> (g_hser_mask & H_m_currentStates) != 0)                      /*@ob C16.shallow-history-memory-is-archived */
+;
